@@ -42,6 +42,7 @@ type gateIn struct {
 	Strip      string     `json:"strip"`
 	HostOpt    string     `json:"host"`
 	Kind       string     `json:"kind"` // http only: "" | "ws" (Upgrade: websocket) | "sse" (Accept: text/event-stream)
+	Req        reqExtra   `json:"req"`  // http only: method, spelling of the Authorization line, further header lines
 }
 
 type gateEnv struct {
@@ -273,7 +274,21 @@ func runGate(raw json.RawMessage) (interface{}, error) {
 	case "sse":
 		extra = http.Header{"Accept": {"text/event-stream"}}
 	}
-	outcome, err := exchange(c, in.Proto, in.XFF, in.Cred, extra)
+	var outcome string
+	var lines [][2]string
+	if in.Proto == "http" {
+		if lines, err = headerLines(in.XFF, in.Cred, in.Req); err != nil {
+			return nil, err
+		}
+		for k, vs := range extra {
+			for _, v := range vs {
+				lines = append(lines, [2]string{k, v})
+			}
+		}
+		outcome, err = exchangeHTTP(c, in.Req.Method, lines)
+	} else {
+		outcome, err = exchange(c, in.Proto, in.XFF, in.Cred, extra)
+	}
 	if err != nil {
 		return nil, err
 	}
@@ -294,12 +309,82 @@ func runGate(raw json.RawMessage) (interface{}, error) {
 	} else {
 		tcpIP = net.ParseIP(host)
 	}
-	return map[string]interface{}{
+	out := map[string]interface{}{
 		"peer":    peer,
 		"outcome": outcome,
 		"hits":    hits,
 		"ref":     refEval(in.Allow, in.Deny, peer, in.XFF, tcpIP, true),
-	}, nil
+	}
+	if in.Proto == "http" {
+		// every X-Forwarded-For line of the request counts, however its name is spelled; the credentials are what
+		// net/http reads out of the first Authorization line
+		out["ref"] = refEval(in.Allow, in.Deny, peer, allXFF(lines), tcpIP, true)
+		out["ba"] = libBasicAuth(wireLines(lines))
+	}
+	return out, nil
+}
+
+// wireLines: a header value arrives without the blanks and tabs around it.
+func wireLines(lines [][2]string) [][2]string {
+	out := make([][2]string, len(lines))
+	for i, l := range lines {
+		out[i] = [2]string{l[0], strings.Trim(l[1], " \t")}
+	}
+	return out
+}
+
+func validToken(s string) bool {
+	if s == "" {
+		return false
+	}
+	for _, c := range s {
+		if !(c >= 'a' && c <= 'z' || c >= 'A' && c <= 'Z' || c >= '0' && c <= '9' || strings.ContainsRune("!#$%&'*+-.^_`|~", c)) {
+			return false
+		}
+	}
+	return true
+}
+
+// exchangeHTTP writes the request byte by byte - the method as given, the header lines in the given order and
+// spelling - and names the status of the answer.
+func exchangeHTTP(c net.Conn, method string, lines [][2]string) (string, error) {
+	if method == "" {
+		method = "GET"
+	}
+	if !validToken(method) {
+		return "", fmt.Errorf("method %q is not a token", method)
+	}
+	var b strings.Builder
+	fmt.Fprintf(&b, "%s /p/x HTTP/1.1\r\nHost: c12.test\r\nUser-Agent: c12\r\nConnection: close\r\n", method)
+	if method == "POST" || method == "PUT" || method == "PATCH" {
+		b.WriteString("Content-Length: 0\r\n")
+	}
+	for _, l := range lines {
+		if !validToken(l[0]) {
+			return "", fmt.Errorf("header name %q is not a token", l[0])
+		}
+		for _, ch := range l[1] {
+			if ch < 0x20 && ch != '\t' || ch > 0x7e {
+				return "", fmt.Errorf("header value %q cannot be sent", l[1])
+			}
+		}
+		switch strings.ToLower(l[0]) {
+		case "host", "content-length", "transfer-encoding", "expect", "te", "trailer":
+			return "", fmt.Errorf("header %q would change the framing of the request", l[0])
+		}
+		b.WriteString(l[0] + ": " + l[1] + "\r\n")
+	}
+	b.WriteString("\r\n")
+	if _, err := io.WriteString(c, b.String()); err != nil {
+		return "", err
+	}
+	resp, err := http.ReadResponse(bufio.NewReader(c), &http.Request{Method: method})
+	if err != nil {
+		return "error:" + err.Error(), nil
+	}
+	io.Copy(io.Discard, resp.Body)
+	resp.Body.Close()
+	return strconv.Itoa(resp.StatusCode), nil
 }
 
 // exchange plays the client's part over an established connection to one of the proxies and names what it saw:
@@ -401,6 +486,25 @@ func genGate(r *hx.Rand) gateIn {
 		// the other two ways ServeHTTP reaches an upstream: the websocket handler (hijack, raw dial) and the
 		// flushing reverse proxy of server-sent events - behind the same gates
 		in.Kind = r.Pick([]string{"", "", "", "ws", "sse"})
+		if in.Kind == "" {
+			in.Req = genReqExtra(r, in.Cred)
+		}
+		if r.Chance(1, 12) {
+			// a chain longer than any bound one might put on the number of elements examined; the offending address
+			// anywhere in it
+			n := 10 + r.Intn(40)
+			els := make([]string, n)
+			for i := range els {
+				els[i] = r.Pick([]string{"127.0.0.1", "127.0.0.1", "::1", "127.0.0.2", "10.1.2.3"})
+			}
+			if r.Chance(2, 3) {
+				els[r.Intn(n)] = r.Pick([]string{"9.9.9.9", "10.1.2.3", "fe80::1%eth0", "2001:db8::5"})
+			}
+			in.XFF = []string{strings.Join(els, r.Pick([]string{",", ", "}))}
+		}
+	}
+	if in.Req.Hdrs == nil {
+		in.Req.Hdrs = [][]string{}
 	}
 	in.NoRoute = r.Chance(1, 25)
 	return in
